@@ -101,6 +101,20 @@ theorem exponent_prefix (r ex : List Char) (h : exponent r = some ex) : ex <+: r
     · contradiction
   · contradiction
 
+theorem fraction_prefix (r1 : List Char) : fraction r1 <+: r1 := by
+  unfold fraction
+  dsimp only
+  simp only [List.append_assoc]
+  apply prefix_append_of (takeWhileC_prefix _ _)
+  rw [← takeWhileC_snd]
+  cases hex : exponent (takeWhileC isDigit r1).2 with
+  | none =>
+    simp only [Option.getD_none, List.nil_append, List.length_nil, List.drop_zero]
+    exact floatSuffix_prefix _
+  | some ex =>
+    simp only [Option.getD_some]
+    exact prefix_append_of (exponent_prefix _ _ hex) (floatSuffix_prefix _)
+
 theorem number_prefix (g : Cfg) (first : Char) (cs : List Char) : (number g first cs).2 <+: cs := by
   unfold number
   split
@@ -120,31 +134,21 @@ theorem number_prefix (g : Cfg) (first : Char) (cs : List Char) : (number g firs
     exact intSuffix_prefix _
   · dsimp only
     split
-    · -- digits '.' fraction exponent suffix
+    · -- digits '.' fraction
       rename_i hcond
       have hdot : ∃ r1, (takeWhileC isDigit cs).2 = '.' :: r1 := by
         cases hr : (takeWhileC isDigit cs).2 with
         | nil => simp [hr, peek] at hcond
         | cons c r1 =>
-          simp [hr, peek] at hcond
+          simp only [hr, peek, Bool.and_eq_true, beq_iff_eq] at hcond
           exact ⟨r1, by rw [hcond.1.1]⟩
       obtain ⟨r1, hr1⟩ := hdot
       dsimp only
-      simp only [List.append_assoc]
       apply prefix_append_of (takeWhileC_prefix _ _)
       rw [← takeWhileC_snd, hr1]
-      simp only [List.drop_succ_cons, List.drop_zero, List.cons_append]
+      simp only [List.drop_succ_cons, List.drop_zero]
       apply List.cons_prefix_cons.mpr
-      refine ⟨rfl, ?_⟩
-      apply prefix_append_of (takeWhileC_prefix _ _)
-      rw [← takeWhileC_snd]
-      cases hex : exponent (takeWhileC isDigit r1).2 with
-      | none =>
-        simp only [Option.getD_none, List.nil_append, List.length_nil, List.drop_zero]
-        exact floatSuffix_prefix _
-      | some ex =>
-        simp only [Option.getD_some]
-        exact prefix_append_of (exponent_prefix _ _ hex) (floatSuffix_prefix _)
+      exact ⟨rfl, fraction_prefix r1⟩
     · split
       · rename_i ex hex
         dsimp only
@@ -180,6 +184,12 @@ theorem scan_partition (g : Cfg) (c : Char) (cs : List Char) :
     (scanToken g c cs).consumed ++ (scanToken g c cs).rest = c :: cs ∧
     (scanToken g c cs).consumed ≠ [] := by
   unfold scanToken
+  split
+  · -- '.' digits …: a float literal that starts with the dot
+    dsimp only
+    refine ⟨?_, by simp⟩
+    simp only [List.cons_append]
+    rw [prefix_drop_eq (fraction_prefix cs)]
   split
   · simp
   · split
